@@ -192,24 +192,28 @@ def norm_rules(run, db):
     run.check('rows(h)' in ky and 'cols' not in ky and 'dx' in ky, 'C13.axis', f.qual, 'uy', 'uy = forward_ft_unit(dx, rows)', 'uy is built as %s (expected from dx and the number of rows)' % ky, f.loc())
     # Interferogram.psd wiring
     fi = db.func('prysm.interferogram.Interferogram.psd')
-    src = {ast.unparse(n.targets[0]): ast.unparse(n.value) for n in walk_no_nested(fi.node) if isinstance(n, ast.Assign)}
-    ok = (src.get('ux, uy, psd_') or src.get('(ux, uy, psd_)')) == 'psd(self.data, self.dx)' and src.get('p.x') == 'ux' and src.get('p.y') == 'uy'
-    run.check(ok, 'C13.axis', fi.qual, 'wiring', 'Interferogram.psd passes (data, dx) and stores (ux, uy) as (x, y)', 'Interferogram.psd wiring changed: %s' % src, fi.loc())
+    from ..core.pattern import match_all
+    bw = match_all(fi.node, ['V_ux, V_uy, V_ps = psd(self.data, self.dx)', 'V_p = RichData(V_ps, E_a, E_b)', 'V_p.x = V_ux', 'V_p.y = V_uy', 'return V_p'])
+    run.check(bw is not None, 'C13.axis', fi.qual, 'wiring', 'Interferogram.psd passes (data, dx) and stores (ux, uy) as (x, y)',
+              'Interferogram.psd wiring changed: %s' % [norm_stmt(n) for n in walk_no_nested(fi.node) if isinstance(n, ast.Assign)], fi.loc())
     # broadcast helper: x along columns, y along rows
     fb = db.func('prysm.coordinates.broadcast_1d_to_2d')
     s = {ast.unparse(n.targets[0]): ast.unparse(n.value) for n in walk_no_nested(fb.node) if isinstance(n, ast.Assign)}
-    rets = [ast.unparse(n.value) for n in walk_no_nested(fb.node) if isinstance(n, ast.Return)]
-    ok = s.get('shpx', '').replace(' ', '') == '(y.size,x.size)' and 'broadcast_to(x, shpx)' in s.get('xx', '') and s.get('yy', '').endswith('.T') and 'broadcast_to(y, shpy)' in s.get('yy', '') \
-        and s.get('shpy', '').replace(' ', '') == '(x.size,y.size)' and rets == ['(xx, yy)']
+    ok = match_all(fb.node, ['V_sx = (y.size, x.size)', 'V_sy = (x.size, y.size)', 'V_xx = np.broadcast_to(x, V_sx)', 'V_yy = np.broadcast_to(y, V_sy).T', 'return V_xx, V_yy']) is not None \
+        or match_all(fb.node, ['V_xx = np.broadcast_to(x, (y.size, x.size))', 'V_yy = np.broadcast_to(y, (x.size, y.size)).T', 'return V_xx, V_yy']) is not None
     run.check(ok, 'C13.axis', fb.qual, 'broadcast', 'x varies along columns, y along rows, shape (len y, len x)', 'broadcast_1d_to_2d no longer builds (rows=y, cols=x): %s' % s, fb.loc())
 
 
 def band_rules(run, db):
     f = db.func(M + 'bandlimited_rms')
     # masks
-    stores = [n for n in walk_no_nested(f.node) if isinstance(n, ast.Assign) and isinstance(n.targets[0], ast.Subscript) and ast.unparse(n.targets[0].value) == 'work']
+    from ..core.pattern import find, match_all
+    # the working array is the copy of the PSD that the first integration consumes, whatever it is called
+    copies = {b_['V_w'] for pat in ('V_w = psd.copy()', 'V_w = np.array(psd)', 'V_w = np.copy(psd)') for b_, _ in find(f.node, pat)}
+    stores = [n for n in walk_no_nested(f.node) if isinstance(n, ast.Assign) and isinstance(n.targets[0], ast.Subscript) and isinstance(n.targets[0].value, ast.Name)
+              and n.targets[0].value.id in copies and isinstance(n.targets[0].slice, ast.Compare)]
     txt = sorted(ast.unparse(n.targets[0].slice).replace(' ', '') + '=' + ast.unparse(n.value) for n in stores)
-    run.check(txt == ['r<flow=0', 'r>fhigh=0'], 'C13.band', f.qual, 'band mask', 'samples strictly outside [flow, fhigh] are zeroed (band edges included)',
+    run.check(txt == ['r<flow=0', 'r>fhigh=0'] and len({n.targets[0].value.id for n in stores}) == 1, 'C13.band', f.qual, 'band mask', 'samples strictly outside [flow, fhigh] are zeroed (band edges included)',
               'band mask is %s, expected work[r < flow] = 0 and work[r > fhigh] = 0' % txt, f.loc())
     # integration: one integration per axis, each with the frequency step of its own axis, then sqrt
     ints = [n for n in walk_no_nested(f.node) if isinstance(n, ast.Call) and ast.unparse(n.func).split('.')[-1] in ('trapz', 'trapezoid', '_trapezoid', '_trapz')]
@@ -257,40 +261,48 @@ def band_rules(run, db):
               'the second integration runs over the column axis but uses the spacing `%s` measured along axes %s: for non-square data df_x != df_y = 1/(N dx)'
               % (second[1], sorted(a_second)), f.loc(second[0]))
     rets = [n for n in walk_no_nested(f.node) if isinstance(n, ast.Return)]
-    run.check(len(rets) == 1 and ast.unparse(rets[0].value).replace(' ', '') in ('np.sqrt(reduced)',), 'C13.band', f.qual, 'sqrt', 'rms = sqrt(integral)', 'bandlimited_rms does not return sqrt of the integral', f.loc())
+    # what is returned is the square root of the result of the last integration
+    par_ = {}
+    for p_ in ast.walk(f.node):
+        for c_ in ast.iter_child_nodes(p_):
+            par_[c_] = p_
+    last_t = [ast.unparse(par_[c].targets[0]) for c in ints if isinstance(par_.get(c), ast.Assign) and isinstance(par_[c].targets[0], ast.Name)]
+    first_arg_ok = bool(stores) and ints[0].args and ast.unparse(ints[0].args[0]) == stores[0].targets[0].value.id and len(ints) >= 2 and ints[1].args and last_t and ast.unparse(ints[1].args[0]) == last_t[0]
+    run.check(first_arg_ok, 'C13.band', f.qual, 'integrand', 'the masked copy is integrated along one axis and the result along the other', 'the integrations do not consume the masked copy / the first integral', f.loc(ints[0]))
+    run.check(len(rets) == 1 and bool(last_t) and ast.unparse(rets[0].value).replace(' ', '') == 'np.sqrt(%s)' % last_t[-1], 'C13.band', f.qual, 'sqrt', 'rms = sqrt(integral)', 'bandlimited_rms does not return sqrt of the integral', f.loc())
     fi = db.func('prysm.interferogram.Interferogram.bandlimited_rms')
-    src = ast.unparse(fi.node)
-    run.check('bandlimited_rms(r=psd.r, psd=psd.data' in src and 'self.psd()' in src, 'C13.band', fi.qual, 'wiring', 'method integrates its own PSD over its own radial frequency grid',
+    bw = match_all(fi.node, ['V_p = self.psd()', 'return bandlimited_rms(r=V_p.r, psd=V_p.data, wllow=wllow, wlhigh=wlhigh, flow=flow, fhigh=fhigh)'])
+    run.check(bw is not None, 'C13.band', fi.qual, 'wiring', 'method integrates its own PSD over its own radial frequency grid',
               'Interferogram.bandlimited_rms wiring changed', fi.loc())
 
 
 def rms_rules(run, db):
     f = db.func(M + 'render_synthetic_surface')
-    order = []
-    for st in sorted([n for n in walk_no_nested(f.node) if isinstance(n, (ast.Assign, ast.AugAssign))], key=lambda s: s.lineno):
-        t = ast.unparse(st.targets[0] if isinstance(st, ast.Assign) else st.target)
-        order.append((t, st))
-    names = [t for t, _ in order]
-
-    def idx(prefix):
-        for i, t in enumerate(names):
-            if t.startswith(prefix):
-                return i
-        return None
-    i_mask, i_meas, i_scale = idx('z[mask'), idx('z_rms'), idx('scale_factor')
-    i_apply = None
-    for i, (t, st) in enumerate(order):
-        if isinstance(st, ast.AugAssign) and t == 'z' and isinstance(st.op, ast.Mult):
-            i_apply = i
-    if None in (i_mask, i_meas, i_scale, i_apply):
-        raise AnalysisError('render_synthetic_surface: mask / measure / scale / apply statements not found')
-    run.check(i_mask < i_meas < i_scale < i_apply, 'C13.rms', f.qual, 'order', 'mask -> measure rms -> scale -> apply', 'the RMS is not measured after masking and before scaling', f.loc())
-    meas = order[i_meas][1].value
-    run.check(isinstance(meas, ast.Call) and 'rms' in ast.unparse(meas.func) and [ast.unparse(a) for a in meas.args] == ['z'], 'C13.rms', f.qual, 'measure',
-              'measured by the NaN-aware rms of the masked surface', 'RMS is measured as %s' % ast.unparse(meas), f.loc(order[i_meas][1]))
-    run.check(ast.unparse(order[i_scale][1].value).replace(' ', '') == 'rms/z_rms', 'C13.rms', f.qual, 'scale', 'scale == requested / measured',
-              'scale factor is %s, expected rms / z_rms' % ast.unparse(order[i_scale][1].value), f.loc(order[i_scale][1]))
-    run.check(ast.unparse(order[i_apply][1].value) == 'scale_factor', 'C13.rms', f.qual, 'apply', 'surface multiplied by the scale', 'surface is multiplied by %s' % ast.unparse(order[i_apply][1].value), f.loc(order[i_apply][1]))
+    from ..core.pattern import match_all
+    # the surface is the third returned value; the statements are found by shape, in source order
+    rb = match_all(f.node, ['return V_x, V_y, V_z'])
+    if rb is None:
+        raise AnalysisError('render_synthetic_surface: does not return (x, y, z)')
+    Z = rb['V_z']
+    env0 = {'V_z': Z}
+    forms = (["V_z[mask == 0] = np.nan", "V_m = globals()['rms'](V_z)", 'V_s = rms / V_m', 'V_z *= V_s'],
+             ["V_z[mask == 0] = np.nan", "V_m = globals()['rms'](V_z)", 'V_z *= rms / V_m'],
+             ["V_z[mask == 0] = np.nan", "V_z *= rms / globals()['rms'](V_z)"])
+    hit = None
+    for pats in forms:
+        hit = hit or match_all(f.node, pats, env=env0, ordered=True)
+    loose = None
+    for pats in forms:
+        loose = loose or match_all(f.node, pats, env=env0, ordered=False)
+    if loose is None:
+        # say which part is missing
+        parts = {'mask': match_all(f.node, ["V_z[mask == 0] = np.nan"], env=env0), 'measure': match_all(f.node, ["V_m = globals()['rms'](V_z)"], env=env0),
+                 'apply': match_all(f.node, ['V_z *= E_s'], env=env0)}
+        if not parts['mask'] or not parts['apply']:
+            raise AnalysisError('render_synthetic_surface: mask / apply statements not found')
+    run.check(hit is not None or loose is None, 'C13.rms', f.qual, 'order', 'mask -> measure rms -> scale -> apply', 'the RMS is not measured after masking and before scaling', f.loc())
+    run.check(loose is not None, 'C13.rms', f.qual, 'measure / scale / apply', 'the masked surface is measured by the NaN-aware rms, scale == requested / measured, the surface is multiplied by the scale',
+              'the RMS scaling is no longer z *= rms / rms(z) on the masked surface', f.loc())
     # the module-level rms really is the NaN-aware one
     mod = db.module('prysm.interferogram')
     r = db.resolve_name(mod, 'rms')
@@ -302,9 +314,10 @@ def edge_rules(run, db):
     from .common import block_as_function, norm_interp
     from ..core.norm import Rat
     f = db.func(M + 'bandlimited_rms')
-    cut = next((i for i, st in enumerate(f.node.body) if isinstance(st, ast.Assign) and ast.unparse(st.targets[0]) == 'work'), None)
+    # the edges are resolved by everything before the PSD is first touched (copied / masked)
+    cut = next((i for i, st in enumerate(f.node.body) if any(isinstance(x_, ast.Name) and x_.id == 'psd' for x_ in ast.walk(st))), None)
     if cut is None:
-        raise AnalysisError('bandlimited_rms: `work = psd.copy()` not found')
+        raise AnalysisError('bandlimited_rms: no statement uses the PSD')
     start = 1 if isinstance(f.node.body[0], ast.Expr) and isinstance(getattr(f.node.body[0], 'value', None), ast.Constant) else 0
     fn, params = block_as_function(f, f.node.body[start:cut], ['flow', 'fhigh'], 'edges')
     it, dom = norm_interp(db)
